@@ -276,7 +276,7 @@ pub fn run(a: &Args) {
                     if var == 0 {
                         let positions: Vec<usize> = (0..toks.len()).collect();
                         let k = positions[(ci * 7 + 3) % positions.len()];
-                        let b = [0x4bu8, 0x5f, 0x7f, 0x80, 0xff, 0x60, 0xc3][(ci + k) % 7];
+                        let b = [0x4bu8, 0x5f, 0x7f, 0x80, 0xff, 0x60, 0xc3, 0x00][(ci + k) % 8];   // 0x00: reserved, never assigned - not to be skipped either
                         let mut t2: Vec<Tok> = toks[..k].to_vec();
                         t2.push(Tok::Bad(b));
                         t2.extend_from_slice(&toks[k..]);
